@@ -323,6 +323,8 @@ def main(ctx):
                     else:
                         raise ValueError(op)
                     m["justread"] = k == "read"
+                    if spelling == "pinned-mtime" and h is None and os.path.exists(fnr):
+                        os.utime(fnr, ns=(10 ** 18, 10 ** 18))      # ... and after every operation that left the file closed
                     if last and h is None and m["exists"] and not m["empty"]:
                         if check_file(hist, rec, fn, m, fnr) is not True:
                             return None
